@@ -519,75 +519,73 @@ theorem es_set_get_roundtrip_c05 (s : C05.State) (hnd : ((layoutOf s).map (·.1)
         (tsArg loc i) (itArg loc i) = .val values :=
   (es_set_get_roundtrip (layoutOf s) hnd d values sel loc i hlen).2
 
-/-! ### the un-shift of `_revert_time_dependent_boundary_values` -/
+/-! ### the un-shift of `_revert_time_dependent_boundary_values` (repaired behaviour) -/
 
-/-- On a hole-free, non-empty history the un-shift never raises and drops the head of the window:
-    slot `i` receives what slot `i + 1` held, the last slot disappears. -/
-theorem unshift_refines {s : Store} {w : Window} (h : Repr s w) (hw : w ≠ []) :
-    (unshift s).2 = none ∧ Repr (unshift s).1 w.tail := by
-  have hlen := repr_length h
-  obtain ⟨a, t, rfl⟩ : ∃ a t, w = a :: t := by
-    cases w with
-    | nil => exact absurd rfl hw
-    | cons a t => exact ⟨a, t, rfl⟩
-  simp only [List.length_cons] at hlen
-  have hall : ∀ j, 0 ≤ j → j < 0 + (s.length - 1) → (lookup s (j + 1)).isSome = true := by
-    intro j _ hj
-    rw [h.2 (j + 1)]
-    have : j < t.length := by omega
-    simp [this]
-  have hl := unshiftLoop_spec 0 (s.length - 1) s hall
-  have hnd := unshiftLoop_nodup 0 (s.length - 1) s h.1
-  have hlast : lookup (unshiftLoop 0 (s.length - 1) s).1 (s.length - 1) = some a ∨
-      ∃ v, lookup (unshiftLoop 0 (s.length - 1) s).1 (s.length - 1) = some v := by
-    right
-    rw [hl.2]
-    have : ¬ (0 ≤ s.length - 1 ∧ s.length - 1 < 0 + (s.length - 1)) := by omega
-    rw [if_neg this, h.2]
-    have : s.length - 1 < (a :: t).length := by simp only [List.length_cons]; omega
-    exact ⟨_, List.getElem?_eq_getElem this⟩
-  obtain ⟨v, hv⟩ : ∃ v, lookup (unshiftLoop 0 (s.length - 1) s).1 (s.length - 1) = some v := by
-    rcases hlast with h1 | h1
-    · exact ⟨_, h1⟩
-    · exact h1
-  simp only [unshift, hl.1, if_true, hv]
-  refine ⟨trivial, nodup_keys_aerase _ _ hnd, fun j => ?_⟩
-  show alookup (aerase _ _) j = _
-  rw [alookup_aerase _ _ _ hnd]
-  by_cases hj : j = s.length - 1
-  · rw [if_pos hj]
-    symm
-    rw [List.getElem?_eq_none_iff]
-    simp only [List.tail_cons]; omega
-  · rw [if_neg hj]
-    show lookup _ j = _
-    rw [hl.2 j]
-    simp only [List.tail_cons]
-    by_cases h1 : 0 ≤ j ∧ j < 0 + (s.length - 1)
-    · rw [if_pos h1, h.2]; simp
-    · rw [if_neg h1, h.2]
-      have h2 : (a :: t)[j]? = none := by
-        rw [List.getElem?_eq_none_iff]; simp only [List.length_cons]; omega
-      have h3 : t[j]? = none := by
-        rw [List.getElem?_eq_none_iff]; omega
-      rw [h2, h3]
+/-- **Un-shift on ANY store, holes included**: afterwards index `j` holds what index `j + 1` held, for
+    every `j` (what index 0 held is dropped), nothing raises, and distinct keys stay distinct. -/
+theorem unshift_spec (s : Store) (hnd : (s.map (·.1)).Nodup) :
+    ((unshift s).map (·.1)).Nodup ∧ ∀ j, lookup (unshift s) j = lookup s (j + 1) :=
+  ⟨nodup_keys_unshift s hnd, lookup_unshift s⟩
 
-/-- un-shift is the inverse of a shift that did not push a value out of the window -/
+/-- in window terms: the head of the window is dropped -/
+theorem unshift_refines {s : Store} {w : Window} (h : Repr s w) : Repr (unshift s) w.tail := by
+  refine ⟨nodup_keys_unshift s h.1, fun j => ?_⟩
+  rw [lookup_unshift, h.2]
+  cases w <;> simp
+
+/-- un-shift is the inverse of a shift that did not push a value out of the window … -/
 theorem unshift_after_shift {s : Store} {w : Window} (h : Repr s w) (hw : w ≠ []) :
-    Repr (unshift (shift s none).1).1 w := by
+    Repr (unshift (shift s none).1) w := by
   have hs := (shift_refines h none).2
   simp only [Option.map_none] at hs
   obtain ⟨a, t, rfl⟩ : ∃ a t, w = a :: t := by
     cases w with
     | nil => exact absurd rfl hw
     | cons a t => exact ⟨a, t, rfl⟩
-  have := (unshift_refines hs (by simp [wshift])).2
+  have := unshift_refines hs
   simpa [wshift] using this
 
-/-- the head of a non-empty window is dropped; on a store with a hole the loop raises `KeyError`
-    after having moved what it could -/
-example : unshift [(0, [1]), (1, [2]), (2, [3])] = ([(0, [2]), (1, [3])], none) := by decide +kernel
-example : unshift [(0, [1]), (2, [3])] = ([(0, [1]), (2, [3])], some .keyError) := by decide +kernel
+/-- … on the index set of ANY store: after a successful shift without depth, the un-shift gives back
+    every slot the store had (holes stay holes). -/
+theorem unshift_after_shift_any (s : Store) (hok : (shift s none).2 = none) (j : Nat) :
+    lookup (unshift (shift s none).1) j = lookup s j := by
+  rw [lookup_unshift]
+  have hb : (shiftLoop s.length s).2 = true := by
+    cases hb : (shiftLoop s.length s).2 with
+    | true => rfl
+    | false => simp [shift, shiftStart, hb] at hok
+  have hall := (shiftLoop_ok_iff s.length s).mp hb
+  have hl := shiftLoop_lookup s.length s hall (j + 1)
+  simp only [shift, shiftStart]
+  rw [hl]
+  by_cases hj : j + 1 ≤ s.length
+  · have : 1 ≤ j + 1 ∧ j + 1 ≤ s.length := by omega
+    rw [if_pos this]; rfl
+  · have : ¬ (1 ≤ j + 1 ∧ j + 1 ≤ s.length) := by omega
+    rw [if_neg this]
+    -- beyond the number of keys: slot j is empty as well (all of 0..n-1 are present, so no key ≥ n)
+    have hnone : ∀ i, s.length ≤ i → lookup s i = none := by
+      intro i hi
+      cases hli : lookup s i with
+      | none => rfl
+      | some v =>
+        exfalso
+        have hsub : (i :: List.range s.length) ⊆ s.map (·.1) := by
+          intro x hx
+          rcases List.mem_cons.mp hx with rfl | hx
+          · exact (mem_keys_iff s x).mpr (by unfold lookup at hli; rw [hli]; rfl)
+          · exact (mem_keys_iff s x).mpr (hall x (List.mem_range.mp hx))
+        have hnd' : (i :: List.range s.length).Nodup := by
+          refine List.nodup_cons.mpr ⟨?_, List.nodup_range⟩
+          rw [List.mem_range]; omega
+        have := hnd'.length_le_of_subset hsub
+        simp only [List.length_cons, List.length_range, List.length_map] at this
+        omega
+    rw [hnone (j + 1) (by omega), hnone j (by omega)]
+
+/-- holes are no obstacle: keys {0, 1, 3} become {0, 2}; nothing is shared, nothing raises -/
+example : unshift [(0, [1]), (1, [2]), (3, [4])] = [(0, [2]), (2, [4])] := by decide +kernel
+example : unshift [(0, [1]), (1, [2]), (2, [3])] = [(0, [2]), (1, [3])] := by decide +kernel
 
 /-- boundary values: update at depth 2 twice, revert, update again reproduces the accepted history -/
 example :
